@@ -194,3 +194,32 @@ func (p *searchStatePool) put(state *SearchState) {
 	state.reset()
 	p.pool.Put(state)
 }
+
+// pikevmPool is a goroutine-safe front for the fallback PikeVM of the reverse searchers.
+// A PikeVM rewrites its own scratch (thread queues, sparse set) during every search, so one
+// instance must never be used by two searches at once; the searchers are shared by all
+// goroutines that use the compiled Engine. Each search borrows an instance from the pool
+// (zero-alloc in steady state, like the searchers' DFA cache pools).
+type pikevmPool struct {
+	pool sync.Pool
+}
+
+// newPikeVMPool creates a pool of PikeVMs for the given NFA.
+func newPikeVMPool(n *nfa.NFA) *pikevmPool {
+	p := &pikevmPool{}
+	p.pool.New = func() any { return nfa.NewPikeVM(n) }
+	return p
+}
+
+// SearchAt is nfa.PikeVM.SearchAt on a pooled instance.
+func (p *pikevmPool) SearchAt(haystack []byte, at int) (int, int, bool) {
+	vm := p.pool.Get().(*nfa.PikeVM)
+	start, end, found := vm.SearchAt(haystack, at)
+	p.pool.Put(vm)
+	return start, end, found
+}
+
+// Search is nfa.PikeVM.Search on a pooled instance.
+func (p *pikevmPool) Search(haystack []byte) (int, int, bool) {
+	return p.SearchAt(haystack, 0)
+}
